@@ -3,11 +3,12 @@
    complete -- a non-root negamax node whose own key occurs in the recorded game history returns 0 before the TT is consulted
                (TT untouched, no TT hit counted, no node counted; the only events are the node entry and the repetition hit);
    sound    -- the repetition decision is true exactly when the node is not the root and its OWN key is in the recorded history.
-   That the recorded history seen at every node of a search is the game history of the root (balance of push/pop) is C17.
+   That the recorded history seen at every node of every search is exactly the game history of the root is
+   C07_every_node_tests_against_the_game_history (Proofs/SearchHistory.v).
    Keys stand for positions: two different positions sharing a 64-bit key is outside the model (trusted base).
    On traces of whole searches the statement is decided per run by the monitor mon_nodes (bad07m / bad07f). *)
 From Coq Require Import NArith ZArith List Bool.
-From JV Require Import Gen.Consts Model.Chess Model.Eval Model.TT Model.Search Model.SearchChess Proofs.RepProofs.
+From JV Require Import Gen.Consts Model.Chess Model.Eval Model.TT Model.Search Model.SearchChess Proofs.RepProofs Proofs.SearchHistory.
 Import ListNotations.
 
 Theorem C07_complete : forall pollp stop_at bypass fuel g d a b (e : c_env),
@@ -23,5 +24,19 @@ Proof.
     move_eqb mcap c_promo c_hidx c_cap_score NULL_MOVE (fun _ => false) false e g).
 Qed.
 
+(* at the level of whole searches: every node of the main search carries the root's repetition index and the first ri slots of
+   the table (the game history recorded by `position`) never change -- so at EVERY such node, of every search, the repetition
+   test of C07_sound / C07_complete compares the node's own key with exactly the game history (the search writes a successor's
+   key into the slot above the history and takes the index back before descending; only quiescence lets the index grow) *)
+Theorem C07_every_node_tests_against_the_game_history : forall pollp stop_at bypass g depth t rt ri,
+  match chess_search pollp stop_at bypass g depth t rt ri with
+  | SDone _ e _ =>
+    Forall (fun ev => match ev with ENode false _ _ _ _ _ _ _ r _ => r = ri | _ => True end) (trace e) /\
+    firstn ri (rtab e) = firstn ri rt /\ ridx e = ri
+  | SFuel => True
+  end.
+Proof. intros. apply search_history. Qed.
+
 Print Assumptions C07_complete.
 Print Assumptions C07_sound.
+Print Assumptions C07_every_node_tests_against_the_game_history.
